@@ -286,7 +286,7 @@ func (c *Chain) Propose(lastCommit *types.Commit) (*types.Block, *types.PartSet)
 
 // HandBlock builds a block with the given transactions on top of the replica's state, as a
 // (possibly careless) proposer could: header fields as CreateProposalBlock sets them.
-func (c *Chain) HandBlock(lastCommit *types.Commit, gasLimit uint64, txs []*types.Transaction) (*types.Block, *types.PartSet) {
+func (c *Chain) HandBlock(lastCommit *types.Commit, gasLimit uint64, txs []*types.Transaction, evidence ...types.Evidence) (*types.Block, *types.PartSet) {
 	st := c.State
 	height := st.LastBlockHeight + 1
 	t := st.LastBlockTime
@@ -295,8 +295,41 @@ func (c *Chain) HandBlock(lastCommit *types.Commit, gasLimit uint64, txs []*type
 	}
 	h := &types.Header{Height: height, Time: t, GasLimit: gasLimit, LastBlockID: st.LastBlockID, ProposerAddress: c.Proposer(),
 		ValidatorsHash: st.Validators.Hash(), NextValidatorsHash: st.NextValidators.Hash(), AppHash: st.AppHash}
-	blk := types.NewBlock(h, txs, lastCommit, nil, trie.NewStackTrie(nil))
+	blk := types.NewBlock(h, txs, lastCommit, evidence, trie.NewStackTrie(nil))
 	return blk, blk.MakePartSet(types.BlockPartSizeBytes)
+}
+
+// DuplicateVote fabricates the evidence that validator key ki prevoted two different blocks at the
+// given (already committed) height: both votes are signed with its key.
+func (c *Chain) DuplicateVote(ki int, height uint64) (types.Evidence, error) {
+	set, err := c.N.Store.LoadValidators(height)
+	if err != nil {
+		return nil, err
+	}
+	addr := c.ValAddr(ki)
+	idx, _ := set.GetByAddress(addr)
+	if idx < 0 {
+		return nil, fmt.Errorf("validator %d not in the set of height %d", ki, height)
+	}
+	meta := c.N.BC.LoadBlockMeta(height)
+	if meta == nil {
+		return nil, fmt.Errorf("no block meta at height %d", height)
+	}
+	mk := func(tag byte) *types.Vote {
+		bid := types.BlockID{Hash: common.BytesToHash([]byte{0xe0, tag, byte(height)}), PartsHeader: types.PartSetHeader{Total: 1, Hash: common.BytesToHash([]byte{0xe1, tag})}}
+		v := &types.Vote{ValidatorAddress: addr, ValidatorIndex: uint32(idx), Height: height, Round: 1, Timestamp: meta.Header.Time, Type: kproto.PrevoteType, BlockID: bid}
+		sig, err := crypto.Sign(crypto.Keccak256(types.VoteSignBytes(c.State.ChainID, v.ToProto())), c.Keys[ki])
+		if err != nil {
+			panic(err)
+		}
+		v.Signature = sig
+		return v
+	}
+	ev := types.NewDuplicateVoteEvidence(mk(1), mk(2), meta.Header.Time, set)
+	if ev == nil {
+		return nil, fmt.Errorf("evidence could not be built")
+	}
+	return ev, nil
 }
 
 // EmptyCommit is the last commit of the first block.
